@@ -30,6 +30,8 @@ def run(check, ctx):
     dss_zero_component_rows(check, repo)
     rfc6979_conversion_rows(check, repo)
     emsa_value_rows(check, repo)
+    from . import eddsa_compose
+    eddsa_compose.eddsa_tables(check, ctx)
     # -- strict DER decoding of the (r, s) sequence -----------------------------
     mod = repo.module("Crypto.Signature.DSS")
     fn = repo.func(mod, "DssSigScheme.verify")
